@@ -181,7 +181,7 @@ func allPropsUnsorted() []*propInfo {
 				"C12.5 also: the scanned rows are not sorted or overwritten before the page token is taken; C17.4 (shared). C12.7 every lookup of snapshots selects by name / id / prefix only (the siblings agree on which snapshots exist). C15.5 (shared) a topic's snapshots, and only they, are removed with it. C12.8 a statement narrowed by the name column compares it for equality (List scopes by separator-terminated prefix excepted). NOT decided: races under PostgreSQL isolation levels, histories, 'inherits no backlog' beyond C12.3.",
 			Assumptions: []string{k1Assumption, "SQLite evaluates LIKE case-insensitively, PostgreSQL case-sensitively (documented behaviour)"},
 			Rules: []ruleFn{
-				{ID: "C12.8", Doc: "[atoms] a resource is addressed by its whole name: every lookup narrowed by the name column compares it for equality", Run: ruleC12_8},
+				{ID: "C12.8", Doc: "[atoms] a resource is addressed by its whole name: every lookup narrowed by the name column compares it for equality", Run: ruleC12_8, Ctrl: true},
 				{ID: "C15.5", Doc: "(shared: a topic's snapshots are removed with it, and only they) [atoms] child tables of topics that no job prunes are emptied, unconditionally, when the topic is deleted", Run: ruleC15_5},
 				{ID: "C12.7", Doc: "[atoms] every lookup of snapshots selects by name / id / prefix only: the siblings agree on which snapshots exist", Run: ruleC12_7},
 				{ID: "C17.4", Doc: "[dep] (shared) a dead-letter topic is attached only from a lookup made for the request (live row), never from a cached edge", Run: ruleC17_4},
@@ -312,7 +312,7 @@ func allPropsUnsorted() []*propInfo {
 				"only (time.Time).IsZero tests establish that a time is non-zero (CheckValid does not)",
 			},
 			Rules: []ruleFn{
-				{ID: "C16.9", Doc: "[dom] a pointer-like result that comes with an error is dereferenced only where the error was found nil (or the result tested)", Run: ruleC16_9},
+				{ID: "C16.9", Doc: "[dom] a pointer-like result that comes with an error is dereferenced only where the error was found nil (or the result tested)", Run: ruleC16_9, Ctrl: true},
 				{ID: "C09.2", Doc: "(shared: a request answered with an error changes nothing: the runner commits only on success) [dom] (shared) the transaction helper commits iff the operation succeeded and reports commit errors", Run: ruleC09_2},
 				{ID: "C16.7", Doc: "[dom] constant indexes into request-derived slices in package services are under a length test", Run: ruleC16_7},
 				{ID: "C16.8", Doc: "[dom] the pull's deferred clean-up dereferences params.ID only under a nil test", Run: ruleC16_8},
@@ -426,7 +426,7 @@ func allPropsUnsorted() []*propInfo {
 			Assumptions: []string{"participle builds the parser the struct tags describe; its lexer's identifier rule is text/scanner's (letter or '_' first, then letters/digits/'_')"},
 			Rules: []ruleFn{
 				{ID: "C08.9", Doc: "[K7] the leaf forms accept the same kinds of attribute name; AND and OR are not mixable at one level", Run: ruleC08_9},
-				{ID: "C08.8", Doc: "[who] the filter parser is built with exactly UseLookahead and Unquote(String): no option that changes the accepted language or rewrites tokens", Run: ruleC08_8},
+				{ID: "C08.8", Doc: "[who] the filter parser is built with exactly UseLookahead and Unquote(String): no option that changes the accepted language or rewrites tokens", Run: ruleC08_8, Ctrl: true},
 				{ID: "C08.7", Doc: "[compiler prove pass] no index / slice operation in package filter keeps an unproved bounds check", Run: ruleC08_7, Ctrl: true},
 				{ID: "C08.1", Doc: "[who][dom] validate before persist", Run: ruleC08_1},
 				{ID: "C08.2", Doc: "[K9] printer sanitisation", Run: ruleC08_2},
